@@ -244,11 +244,16 @@ CLAIMED = {
         "character; 'user:@' and path '/' accept both readings.",
         "DESIGN.md §4 C19"),
     "C10": (
-        "TLC refinement check SlotsImpl.tla => Slots.tla (+ bug-switch counterexamples); TLC-generated graph-walk "
-        "cases replayed on the real ChannelSlots and end to end; TLC trace validation against Slots.tla",
+        "TLC refinement check SlotsImpl.tla => Slots.tla (+ bug-switch counterexamples); inductive invariant of the "
+        "set-based allocator model SlotsInd.tla discharged symbolically by Apalache (channel_max 1..8, tied to "
+        "SlotsImpl by TLC); TLC-generated graph-walk cases replayed on the real ChannelSlots and end to end; TLC "
+        "trace validation against Slots.tla",
         "TLC proves for channel_max 3 and 4 (thorough 5) that the implementation-shaped allocator model (counter, "
         "ordered freed set) refines the property-level allocator for all operation sequences, and that each of the "
-        "three pre-fix behaviours breaks it. The code is bound by replaying, for every transition of every "
+        "three pre-fix behaviours breaks it. Apalache shows IndInv of SlotsInd.tla (freed and open ids disjoint; "
+        "every id that is not open is in the freed set or ahead of the counter; Exhausted only when all ids are "
+        "open; no panic) to be inductive for every channel_max in 1..8 from ANY state satisfying it, and TLC shows "
+        "SlotsImpl's reachable states satisfy it and its steps are SlotsInd steps. The code is bound by replaying, for every transition of every "
         "reachable model state, the generated operation sequence on the real ChannelSlots and through "
         "Connection::open_channel/Channel::close/server Channel.Close (mock transport), plus random walks and the "
         "complete 65535/65534 id space; every result is validated by TLC against Slots.tla.",
